@@ -181,7 +181,7 @@ package varlink
 //@   ghostset at call(Unmarshal)#1 : gMethod = in.Method
 //@   ghostset at call(Unmarshal)#1 : gOneway = in.Oneway
 //@   assert [decode-arg C04 C10] at call(Unmarshal)#1 : arg0 == request && arg1 == boxed(addr_in)
-//@   assert [decode-fresh C01 C03 C04 C10] at call(Unmarshal)#1 : iszero(in)
+//@   assert [decode-fresh C01 C03 C04 C10] at call(Unmarshal)#1 : zeropointee(arg1)
 //@   ensures [undecodable C01 C04 C10] gDecErr != nil ==> result != nil && wsame() && dcount == old(dcount)
 //@   ensures [nomethod C04 C10] gDecErr == nil && lastDot(gMethod) <= 0 ==> dcount == old(dcount) && replied(gOneway) &&
 //@       (wcount == old(wcount) + 1 ==> wlastErr == "org.varlink.service.InvalidParameter" && typeof(wlastParams) == typeid(ptr(InvalidParameter)) && unbox(ptr(InvalidParameter), wlastParams).Parameter == "method")
@@ -577,7 +577,7 @@ package varlink
 //@   ensures [cont C03 C11] gRdErr == nil && gDecErr2 == nil && gRErr == "" ==> result1 == nil && (gRCont ==> result0 == 4) && (!gRCont ==> result0 == 0)
 //@   assert [reader C02 C18] at call(ReadBytes)#1 : arg0 == (*c).conn && arg2 == 0
 //@   assert [strip C02 C11] at call(Unmarshal)#1 : arg0 == out[0:len(out) - 1] && arg1 == boxed(addr_m)
-//@   assert [decode-fresh C03 C11] at call(Unmarshal)#1 : iszero(m)
+//@   assert [decode-fresh C03 C11] at call(Unmarshal)#1 : zeropointee(arg1)
 //@   assert [errval C11 C12] at call(DispatchError)#1 : arg0.Name == m.Error && arg0.Parameters == boxed(m.Parameters) && m.Error != ""
 //@   assert [params C03] at call(Unmarshal)#2 : arg0 == *m.Parameters && arg1 == outParameters && m.Error == ""
 
